@@ -192,6 +192,8 @@ Definition c20_tv_setitem (tv : list c20_tval) (i : Z) (v : c20_tval) : c20_res 
   end.
 (* copy(): new TV(self) -- by value *)
 Definition c20_tv_copy (tv : list c20_tval) : list c20_tval := tv.
+(* assign( x ): self = x  (same wrapper type, hence same element types) *)
+Definition c20_tv_assign (self x : list c20_tval) : list c20_tval := x.
 
 (* ---------------------------------------------------------------- entry arithmetic (exact) *)
 Definition c20_qadd (a b : Q) : Q := Qred (a + b).
@@ -286,11 +288,18 @@ Inductive c20_op :=
   | C20_IMulS (r : nat) (q : Q) | C20_IDivS (r : nat) (q : Q) | C20_IAddS (r : nat) (q : Q) | C20_ISubS (r : nat) (q : Q)
   | C20_Assign (r s : nat)
   | C20_Norm1 (r : nat) | C20_Norm22 (r : nat) | C20_NormInf (r : nat)
+  (* API-coverage round: remaining bound entry points *)
+  | C20_NewBadBuffer                           (* buffer of another dtype / not one-dimensional: value_error *)
+  | C20_CopyArgs (r : nat) (vals : list Q)     (* v.copy(a, b, ...): a vector of v's type from the arguments *)
+  | C20_Float (r : nat)                        (* float(v): bound for size 1 only *)
+  | C20_SetSlice (r : nat) (start stop step : option Z) (vals : list Q)   (* v[a:b:c] = vals (through the NumPy fallback) *)
+  | C20_NeL (r : nat) (l : list Q) | C20_ISubL (r : nat) (l : list Q) | C20_AssignL (r : nat) (l : list Q)
   (* `npv` scripts: NumPy arrays accessed from C++ through a NumPyVector wrapped around register r *)
   | C20_NewArr (vals : list Q)                 (* np.array([...]) *)
   | C20_NLen (r : nat) | C20_NGet (r : nat) (i : nat) | C20_NSet (r : nat) (i : nat) (x : Q)
   | C20_NIMulS (r : nat) (q : Q) | C20_NIDivS (r : nat) (q : Q) | C20_NIAddS (r : nat) (q : Q) | C20_NISubS (r : nat) (q : Q)
-  | C20_NNorm1 (r : nat) | C20_NNorm22 (r : nat) | C20_NNormInf (r : nat).
+  | C20_NNorm1 (r : nat) | C20_NNorm22 (r : nat) | C20_NNormInf (r : nat)
+  | C20_NBadDim.                               (* NumPyVector around an array that is not one-dimensional: InvalidStateException *)
 
 Definition c20_vals (st : c20_state) (o : c20_obj) : list Q := c20_read_all (c20_H st) (c20_cells o).
 Definition c20_size (o : c20_obj) : nat := List.length (c20_cells o).
@@ -340,6 +349,17 @@ Definition c20_on_npv (cfg : c20_cfg) (st : c20_state) (r : nat) (f : list nat -
   end.
 Definition c20_npv_inplace (st : c20_state) (cs : list nat) (vals : list Q) : c20_state * c20_obs :=
   (c20_set_heap st (c20_write_all (c20_H st) cs vals), C20_ObsNone).
+
+(* NumPy slice assignment a[idx] = vals: one value is broadcast, otherwise the lengths must agree (ValueError) *)
+Definition c20_setslice (st : c20_state) (o : c20_obj) (start stop step : option Z) (vals : list Q) : c20_state * c20_obs :=
+  match c20_slice_indices (c20_size o) start stop step with
+  | C20_Ok idx =>
+      let cs := map (fun j => nth j (c20_cells o) O) idx in
+      if Nat.eqb (List.length vals) 1 then c20_npv_inplace st cs (repeat (nth O vals 0%Q) (List.length cs))
+      else if Nat.eqb (List.length vals) (List.length cs) then c20_npv_inplace st cs vals
+      else (st, C20_ObsExc C20_ValueError)
+  | C20_Exc e => (st, C20_ObsExc e)
+  end.
 
 Definition c20_step (cfg : c20_cfg) (st : c20_state) (op : c20_op) : c20_state * c20_obs :=
   match op with
@@ -426,6 +446,14 @@ Definition c20_step (cfg : c20_cfg) (st : c20_state) (op : c20_op) : c20_state *
   | C20_Norm1 r => c20_on_vec st r (fun o => (st, C20_ObsScalar (c20_one_norm (c20_vals st o))))
   | C20_Norm22 r => c20_on_vec st r (fun o => (st, C20_ObsScalar (c20_two_norm2 (c20_vals st o))))
   | C20_NormInf r => c20_on_vec st r (fun o => (st, C20_ObsScalar (c20_inf_norm (c20_vals st o))))
+  | C20_NewBadBuffer => (st, C20_ObsExc C20_ValueError)
+  | C20_CopyArgs r vals => c20_on_vec st r (fun o => c20_push_new st C20_Vec (c20_construct (c20_size o) vals))
+  | C20_Float r => c20_on_vec st r (fun o =>
+      if Nat.eqb (c20_size o) 1 then (st, C20_ObsScalar (nth O (c20_vals st o) 0%Q)) else (st, C20_ObsUnmodelled))
+  | C20_SetSlice r a b c vals => c20_on_any st r (fun o => c20_setslice st o a b c vals)
+  | C20_NeL r l => c20_on_vec st r (fun o => (st, C20_ObsBool (negb (c20_veq (c20_vals st o) (c20_construct (c20_size o) l)))))
+  | C20_ISubL r l => c20_on_vec st r (fun o => c20_inplace st o (c20_vsub (c20_vals st o) (c20_construct (c20_size o) l)))
+  | C20_AssignL r l => c20_on_vec st r (fun o => c20_inplace st o (c20_construct (c20_size o) l))
   | C20_NewArr vals => c20_push_new st C20_Arr vals
   | C20_NLen r => c20_on_npv cfg st r (fun cs => (st, C20_ObsInt (Z.of_nat (List.length cs))))
   | C20_NGet r i => c20_on_npv cfg st r (fun cs =>
@@ -441,6 +469,7 @@ Definition c20_step (cfg : c20_cfg) (st : c20_state) (op : c20_op) : c20_state *
   | C20_NNorm1 r => c20_on_npv cfg st r (fun cs => (st, C20_ObsScalar (c20_one_norm (c20_read_all (c20_H st) cs))))
   | C20_NNorm22 r => c20_on_npv cfg st r (fun cs => (st, C20_ObsScalar (c20_two_norm2 (c20_read_all (c20_H st) cs))))
   | C20_NNormInf r => c20_on_npv cfg st r (fun cs => (st, C20_ObsScalar (c20_inf_norm (c20_read_all (c20_H st) cs))))
+  | C20_NBadDim => (st, C20_ObsExc C20_RuntimeError)
   end.
 
 (* a result that is an existing register is pushed again (the script refers to results by position) *)
